@@ -796,7 +796,6 @@ class QueryObjectDescriptor(SymbolicExpression[T], ABC):
             if self.variable_is_inferred(var)
         )
 
-    @lru_cache(maxsize=None)
     def variable_is_bound_or_its_children_are_bound(
         self, var: CanBehaveLikeAVariable[T], result: OperationResult
     ) -> bool:
